@@ -38,6 +38,12 @@ def c01(tier):
         out.append(("%s-rk-freegrid" % meth, _mk(method=meth, N=2, M=1, grid=dict(kind="free"), T=("free", 1.0), ode=E("f", None, ("x", "u", "t")))))
         out.append(("%s-rk-nocontrol" % meth, _mk(method=meth, N=2, M=1, controls=[], ode=E("f", None, ("x", "t")))))
         out.append(("%s-rk-scaled" % meth, _mk(method=meth, N=2, M=2, scales={"x": "unknown", "u": "unknown"}, ode=E("f", None, ("x", "u", "t")))))
+        # higher-order controls: helper states and helper control behind the user's own, integrator chain in the dynamics
+        for hoc in ([(1, 1)], [(2, 2)], [(1, 2), (1, 1)]):
+            out.append(("%s-higher-order-control-%s" % (meth, "+".join("%dx%d" % h for h in hoc)),
+                        _mk(method=meth, N=2, M=2, hoc=hoc, scales={"x": "unknown", "w": "unknown"}, T=("unknown",), ode=E("f", None, ("x", "u", "w", "t")),
+                            constraints=[Con(E("cw", 1, ("x", "w", "u")), "le", 1.0), Con(E("cn", 1, ("w", ("off", "w", 1))), "le", 2.0), Con(E("cb", 1, (("at", "t0", "w"), ("at", "tf", "x"))), "eq", 0.0)],
+                            objective=[("sum", E("Sw", 1, ("x", "w"))), ("integral", E("Lw", 1, ("w", "u")))])))
         # discrete-time model: update rule sees DT (integrator step) and DT_control (interval)
         for M in (1, 2):
             out.append(("%s-discrete-M%d" % (meth, M), _mk(method=meth, N=2, M=M, discrete=True, T=("unknown",),
@@ -238,6 +244,11 @@ def c02(tier):
                 out.append(("DC-d%d-%s-dae-M2" % (d, sch),
                             _mk(method="DC", N=2, M=2, degree=d, scheme=sch, algebraics=[2], T=("unknown",),
                                 ode=E("f", None, ("x", "u", "z", "t")), alg=E("g", None, ("x", "z", "u", "t")))))
+    for hoc in ([(1, 1)], [(2, 2)], [(1, 2), (1, 1)]):
+        out.append(("DC-higher-order-control-%s" % "+".join("%dx%d" % h for h in hoc),
+                    _mk(method="DC", N=2, M=2, degree=2, hoc=hoc, scales={"x": "unknown", "w": "unknown", "der": "unknown"}, T=("unknown",), ode=E("f", None, ("x", "u", "w", "t")),
+                        constraints=[Con(E("cw", 1, ("x", "w", "u")), "le", 1.0), Con(E("cn", 1, ("w", ("off", "w", 1))), "le", 2.0), Con(E("cb", 1, (("at", "t0", "w"), ("at", "tf", "x"))), "eq", 0.0)],
+                        objective=[("sum", E("Sw", 1, ("x", "w"))), ("integral", E("Lw", 1, ("w", "u")))])))
     out.append(("DC-d2-geometric", _mk(method="DC", N=3, M=2, degree=2, grid=dict(kind="geometric", growth=2.0), T=("free", 1.0), ode=E("f", None, ("x", "u", "t")))))
     out.append(("DC-d2-localizeT", _mk(method="DC", N=2, M=2, degree=2, grid=dict(kind="uniform", localize_T=True), T=("free", 1.0), ode=E("f", None, ("x", "u", "t")))))
     return out
